@@ -218,7 +218,7 @@ def make_case(rng, tier, idx, force=None):
 
 def gen_cases(rng, tier):
     cases = []
-    n_cases = 130 if tier == 'quick' else 5000
+    n_cases = 400 if tier == 'quick' else 5000
     # boundary stream: every kind in both dimensions, 3 points, rotation pi
     i = 0
     for dim in (2, 3):
@@ -250,7 +250,7 @@ def split_out(line):
     if '|' in tk:
         k = tk.index('|')
         m, e = tk[1:k], tk[k + 2:]
-        names = ['ortho', 'det', 'bottom', 'resid', 'refscale', 'dR', 'dT', 'costI', 'costR', 'contract', 'checked']
+        names = ['ortho', 'det', 'bottom', 'resid', 'refscale', 'dR', 'dT', 'costI', 'costR', 'contract', 'detUV']
         ex = {nm: tok_val(v) for nm, v in zip(names, e)}
         ex['sig'] = [tok_val(v) for v in e[len(names):]]
         return m, ex
@@ -366,6 +366,8 @@ def oracle(case, out, stats):
         tol = TOL[fk]
         dim = len(M) - 1
         tag = (tags[li] if tags and li < len(tags) else None) or {'role': 'corpus', 'fk': fk}
+        if tk[2] in ('pcorr', 'pall') and tk[-1] != tk[-2]:
+            tag = {'role': 'tie-only', 'fk': fk}      # different scales for the two sets: not a registration problem
         stats['finds_' + fk] = stats.get('finds_' + fk, 0) + 1
         stats['type_%s%d%s' % (tk[1], dim, fk)] = stats.get('type_%s%d%s' % (tk[1], dim, fk), 0) + 1
         if any(math.isnan(x) for row in M for x in row):
@@ -376,6 +378,8 @@ def oracle(case, out, stats):
         stats['svd_contract_worst_' + fk] = max(stats.get('svd_contract_worst_' + fk, 0.0), ex['contract'])
         if not ex['contract'] <= CONTRACT_TOL[fk]:
             bad('svd-contract', 'Eigen::JacobiSVD output violates the IsSVD contract: residual %g' % ex['contract'], fk=fk)
+        if ex['detUV'] < 0:
+            stats['determinant_correction_fired'] = stats.get('determinant_correction_fired', 0) + 1
         # -- proper rotation, always (any data, any conditioning)
         stats['proper_checked'] = stats.get('proper_checked', 0) + 1
         if not ex['ortho'] <= tol:
